@@ -805,6 +805,7 @@ func (in *Interp) format(f NF, argsV Value) NF {
 				if in.p.containsFork("fmt-percent", a, pct, &B{k: BInRe, a: NF{sg}, re: reClassStar(a.cls.minus(pct))}) {
 					in.p.narrow(a, pct.not())
 				} else {
+					in.p.splitAtom(a, pct, true) // records that the atom contains '%'
 					return in.havocFormat(f)
 				}
 			}
